@@ -22,3 +22,7 @@ check("C01", "Hypothesis grammar over (backend configuration, rule) + exhaustive
       "Queries of a verification backend family (6 precedence orders, parenthesize, 3 operator spellings, in-lists, shortcut expressions, not-equals mode, 3 escaping and 3 field-quoting profiles) are parsed back with the configuration's own precedence and quoting rules and compared, for every truth assignment of the atomic predicates, with a reference formula computed from the source document by code that shares nothing with pySigma. All condition shapes with <= 3 operators are swept under all 36 precedence/parenthesize/spelling combinations.",
       "Trusted: vf/ref as the specification, vf/target/decoder.py as the target language's grammar; atoms independent; strings always quoted and the escape character self-escaped (backend soundness).",
       "DESIGN.md section 3, C01")
+check("C05", "exhaustive short strings x escaping configurations + Hypothesis strings; round-trip / decode / regex-vs-glob differential oracles",
+      "All strings up to length 4 (5 thorough) over each configuration's metacharacter alphabet under 14 escaping configurations are rendered and decoded by the target rules; the parser, the plain round trip and all slices are compared with an independent model; to_regex and the three RegexTransformation methods are compared with a glob matcher on every subject string up to length 3 over 7+ letters; regex escaping is undone and compared; field names under 4 quoting configurations.",
+      "Trusted: vf/ref/strings.py, python re; unsound backend configurations (escape character not self-escaped) are not generated.",
+      "DESIGN.md section 3, C05")
